@@ -57,6 +57,8 @@ class BuiltStat:
             return self.objs[ref["r"]]
         if "d" in ref:
             return self.dist_nodes[ref["d"]]
+        if "dv" in ref:
+            return self.dist_nodes[ref["dv"]]
         raise ValueError(ref)
 
     def _dist(self, spec, name=""):
@@ -174,7 +176,7 @@ class BuiltStat:
         # user-supplied totals
         for key, u in (program.get("user") or {}).items():
             if u.get("as_value"):
-                node = lsl.Value(np.float32(u["consts"]["a"]), _name=f"user_{key}")
+                node = lsl.Value(np.asarray(u["value"], dtype=np.float32), _name=f"user_{key}")
             else:
                 node = lsl.Calc(self._fn(u), *[self._ref(r) for r in u["args"]], _name=f"user_{key}")
             setattr(gb, key + "_node", node)
@@ -214,6 +216,26 @@ class BuiltStat:
             self.model.nodes[name].value = v
         else:
             self.model.vars[name].value = v
+
+    def assign_style(self, name: str, value, via: str, style: str) -> str:
+        """
+        style "jnp": a new jax array; "np": a new (mutable) numpy array; "inplace": the
+        idiom  v = var.value; v[...] = new; var.value = v  (same object re-assigned) -
+        possible only if the stored value is a writable numpy array, else falls back to
+        "np". Returns the style actually used.
+        """
+        holder = self.model.nodes[name] if via == "node" else self.model.vars[name]
+        if style == "jnp":
+            holder.value = self.jnp.asarray(value, dtype=self.jnp.float32)
+            return "jnp"
+        if style == "inplace":
+            v = holder.value
+            if isinstance(v, np.ndarray) and v.flags.writeable and v.shape == np.shape(value):
+                v[...] = np.asarray(value, dtype=np.float32)
+                holder.value = v
+                return "inplace"
+        holder.value = np.array(value, dtype=np.float32)
+        return "np"
 
     def current_valuation(self) -> dict:
         out = {}
